@@ -247,6 +247,8 @@ class Lock:
 
     def __init__(self, cfg, di=(), next_id=1):
         core.bind_repo()
+        import logging
+        logging.getLogger("bacpypes").setLevel(logging.CRITICAL + 1)   # the ASAP logs what it swallows
         self.vt = _vt.VT.install(START)
         self.vt.reset(START)
         install_raw_services()
@@ -346,6 +348,8 @@ class Lock:
         self.outs.append(rec)
 
     def _digest(self, tr):
+        # the context is not reported in AWAIT_RESPONSE: the request has been handed
+        # to the application (whose decoder consumes the octets) and is never read again
         ctx = tr.segmentAPDU
         timer = None
         if tr.isScheduled:
@@ -357,7 +361,7 @@ class Lock:
                 z(tr.lastSequenceNumber), z(tr.initialSequenceNumber), _n(tr.actualWindowSize),
                 z(tr.segmentSize), z(tr.segmentCount), z(tr.maxApduLengthAccepted),
                 _n(tr.maxSegmentsAccepted), 1 if getattr(tr, "segmented_response_accepted", False) else 0,
-                timer, None if ctx is None else self._ctx_json(ctx)]
+                timer, None if (ctx is None or int(tr.state) == 3) else self._ctx_json(ctx)]
 
     def snapshot(self):
         return {"cl": [self._digest(t) for t in self.smap.clientTransactions],
@@ -455,7 +459,10 @@ class Lock:
         self.wire = []
         target = self.vt.now + dt_us / 1e6
         if self.vt.tm.tasks and self.vt.tm.tasks[0][0] < target:
-            raise core.Infra("tick would skip a due task")
+            target = self.vt.tm.tasks[0][0]          # never jump over a due task
+            dt_us = int(round((target - self.vt.now) * 1e6))
+            if dt_us <= 0:
+                return None
         self.vt.now = target
         return self._finish({"op": "ev", "e": "tick", "dt": dt_us})
 
@@ -537,17 +544,33 @@ def br_sig(case, reply):
 
 def compare(ctx, stream, locks, exe="drv_c11"):
     """send every lock's event lines to the model driver as ONE batch and diff
-    the reply streams; `br` (branch path) becomes the coverage signature"""
+    the reply streams event by event; the model's `br` (branch path) is the
+    coverage signature.  The first differing event of a scenario is recorded
+    as a correspondence disagreement whose case is the whole event prefix
+    (replayable); later differences of the same scenario are consequences."""
     if not ctx.model_ok:
         for l in locks:
-            for _ in l.events:
-                ctx.count(stream)
+            ctx.count(stream, n=len(l.events))
         return
-    lines, impl = [], []
+    lines = []
     for l in locks:
         lines += l.lines()
-        impl += l.impl_replies()
     model = core.Driver(exe).ask(lines)
-    sigs = [m.get("br", "reset") if isinstance(m, dict) else "?" for m in model]
-    it = iter(sigs)
-    ctx.compare_stream(stream, lines, impl, model, sig=lambda c, m: next(it))
+    pos = 0
+    for l in locks:
+        mine = model[pos:pos + 1 + len(l.events)]
+        pos += 1 + len(l.events)
+        impl = l.impl_replies()
+        ctx.streams[stream] += len(l.events)
+        bad = False
+        for i, (a, m) in enumerate(zip(impl, mine)):
+            if isinstance(m, dict) and m.get("r") == "bad-request":
+                raise core.Infra("model rejected request %r: %r" % (l.lines()[i], m))
+            if i == 0:
+                continue
+            br = m.get("br", "")
+            ctx.count(stream, br, trivial=br.startswith("tick"))
+            if not bad and core.canon(a) != core.canon(core.strip_br(m)):
+                bad = True
+                ctx.disagree(stream, {"reset": l.reset_line, "events": l.events[:i], "label": getattr(l, "label", "")},
+                             a, core.strip_br(m))
